@@ -102,22 +102,34 @@ def work_states(bins, seed, n):
         s = gen_state(rng)
         x, y, z = s["xyz"]
         dists = sorted(rng.sample([None, 0, 1, 2, 3, 10, 11, 1000], rng.choice([2, 3, 4])), key=lambda d: -1 if d is None else d)
+        # one state in four reaches flow as an object on stdin (emitted by zerv itself for the same tag) instead of --tag-version
+        source = ["--source", "none", "--tag-version", s["tag"]]
+        stdin = None
+        if rng.random() < 0.25:
+            r0 = pr.call(dict(op="cli", argv=["zerv", "version", "--source", "none", "--tag-version", s["tag"], "--output-format", "zerv"]))
+            if "ok" in r0:
+                # without --schema a stdin object brings its own schema (here: the resolved clean-at-tag tier), which is not one of the
+                # standard presets the claim is quantified over: the preset is named explicitly
+                source, stdin = ["--source", "stdin"] + ([] if "--schema" in s["opts"] else ["--schema", "standard"]), r0["ok"]
+                inc("states_via_stdin")
         for fmt in ("semver", "pep440"):
             lo = "%d.%d.%d" % (x, y, z)
             hi = "%d.%d.%d" % (x, y, z + 1)
             klo, khi = key(fmt, lo), key(fmt, hi)
             prev = None        # (distance, version) in commit mode
             for d in dists:
-                argv = ["--source", "none", "--tag-version", s["tag"]] + (["--distance", str(d)] if d is not None else []) + s["opts"] + ["--output-format", fmt]
-                k, out = run_flow(pr, argv)
+                argv = source + (["--distance", str(d)] if d is not None else []) + s["opts"] + ["--output-format", fmt]
+                k, out = run_flow(pr, argv, stdin=stdin)
                 inc("runs")
-                case = dict(kind="state", argv=["flow"] + argv)
+                case = dict(kind="state", argv=["flow"] + argv, stdin=stdin)
                 distinct.add(hash(tuple(argv)))
                 if k == "panic":
                     bad.append(("panic@" + out.split(":")[0], "flow panicked: %s" % out, case))
                     continue
                 if k == "err":
                     inc("refused")
+                    # "yields a version V": every generated state is a valid request (final tag within u32, documented options and lengths 1-9)
+                    bad.append(("flow-refused", "flow refused a valid state: %s" % out[:200], case))
                     continue
                 kv = key(fmt, out)
                 if kv is None:
@@ -219,6 +231,11 @@ def work_chain(bins, seed, idx, tmp):
     try:
         branches = ["main"]
         hl = rng.choice([5, 3, 7])
+        # one option set per chain (the same along the whole history, so that successive observations stay comparable)
+        chain_opts = rng.choice([[], [], ["--schema", "standard-context"], ["--schema", "standard-no-context"], ["--schema", "standard"], ["--post-mode", "commit"],
+                                 ["--pre-release-label", "beta"], ["--pre-release-label", "rc", "--pre-release-num", "3"],
+                                 ["--branch-rules", '[(pattern: "develop", pre_release_label: beta, pre_release_num: 1, post_mode: commit), (pattern: "feature/*", pre_release_label: alpha, post_mode: commit), (pattern: "*", pre_release_label: alpha, post_mode: commit)]']])
+        st["chain_with_options"] = st.get("chain_with_options", 0) + (1 if chain_opts else 0)
         last = {}            # (branch, fmt, base tag) -> (distance, version)
 
         def new_tag(lower_than=None):
@@ -255,7 +272,7 @@ def work_chain(bins, seed, idx, tmp):
             if nearest and not any(c in first_parent_anc(h) for c in nearest):
                 st["chain_tag_only_via_second_parent"] += 1
             for fmt in ("semver", "pep440"):
-                argv = ["flow", "-C", repo.path, "--output-format", fmt, "--hash-branch-len", str(hl)]
+                argv = ["flow", "-C", repo.path, "--output-format", fmt, "--hash-branch-len", str(hl)] + chain_opts
                 r = core.run_zerv(bins, argv, env=env)
                 st["chain_observations"] += 1
                 case = dict(kind="chain", seed=seed, idx=idx, ops=list(repo.ops), dirt=kind, fmt=fmt)
